@@ -220,4 +220,30 @@ example (mkH : List UInt8 → Hash (BitVec 128)) (inl : Nat → BitVec 128) (sch
     [true, false] [true] rfl _ idealOt_spec (by decide)
     { sch := sch, fragGE := fun _ => 1, fragEG := fun _ => readBufSize - 3 }
 
+/-- The session over the connections on INTEGER inputs (`*big.Int` of any sign
+and magnitude, per flattened member; Model/Proto2Int.lean): for every
+connection environment both parties return `Circuit.Compute` of those
+integers. -/
+theorem C02_both_get_f_int_over_conn (p : Circuit2) (hwf : p.WF = true)
+    (mkH : List UInt8 → Hash (BitVec 128)) (key : List UInt8) (r : BitVec 128)
+    (hr : LabelAlg.sbit r = true) (inl : Nat → BitVec 128) (xs ys : ArgVals) (hx : argWidth xs = p.n0)
+    (ot : OtFun (BitVec 128)) (hot : OtSpec ot)
+    (hdom : key.length < 2 ^ 32 ∧ p.c.gates.length < 2 ^ 32 ∧ p.n0 < 2 ^ 32 ∧ p.n1 < 2 ^ 32 ∧
+      p.c.nOut < 2 ^ 32)
+    (env : ConnEnv) :
+    ∃ rE rG, run2Conn p mkH key r inl (encodeArg xs) (encodeArg ys) ot env =
+        .ok ((p.expectedInt xs ys, p.expectedInt xs ys), rE, rG) ∧
+      rE.unread = ByteArray.empty ∧ rG.unread = ByteArray.empty := by
+  have h := C02_both_get_f_over_conn p hwf mkH key r hr inl (encodeArg xs) (encodeArg ys)
+    (by rw [encodeArg_length, hx]) ot hot hdom env
+  have he : p.expected (encodeArg xs) (encodeArg ys) = p.expectedInt xs ys := by
+    simp [Circuit2.expectedInt, Circuit2.expected, Circuit2.computeInts, encodeArg_append]
+  rw [he] at h
+  exact h
+
+example (mkH : List UInt8 → Hash (BitVec 128)) (inl : Nat → BitVec 128) (sch : Nat → Sched) :=
+  C02_both_get_f_int_over_conn exampleCircuit2 (by decide) mkH (List.replicate 32 7) (setS 5#128) (setS_msb _) inl
+    [(2, -3)] [(1, -1)] (by decide) _ idealOt_spec (by decide)
+    { sch := sch, fragGE := fun _ => 1, fragEG := fun _ => readBufSize - 3 }
+
 end Mpc
